@@ -2,6 +2,7 @@
 //! and `Held`: a uniform way to reach payloads through whatever guard / data value the
 //! library hands out.
 
+use crate::caps::Opaque;
 use crate::pay::Pay;
 use crate::raw::{SimRawMutex, SimRawRwLock};
 use crate::shape::*;
@@ -13,6 +14,10 @@ use happylock::{Keyable, ThreadKey};
 
 pub trait Held {
     fn visit<'x>(&'x mut self, path: &[u8], layers: &mut Vec<bool>) -> PayRef<'x>;
+    /// move the holds out of the guard if its type lets safe code do that (see caps.rs)
+    fn steal<'x>(&'x mut self) -> Option<Box<dyn Opaque + 'x>> {
+        None
+    }
 }
 
 fn at_leaf(path: &[u8]) {
@@ -43,16 +48,16 @@ impl Held for RwLockWriteRef<'_, Pay, SimRawRwLock> {
         PayRef::Mut(&mut **self)
     }
 }
-impl Held for RwLockReadGuard<'_, Pay, SimRawRwLock> {
+impl<'g> Held for RwLockReadGuard<'g, Pay, SimRawRwLock> {
     fn visit<'x>(&'x mut self, path: &[u8], _: &mut Vec<bool>) -> PayRef<'x> {
         at_leaf(path);
-        PayRef::Shared(&**self)
+        crate::shared_leaf_access!(self, RwLockReadGuard<'g, Pay, SimRawRwLock>)
     }
 }
-impl Held for RwLockReadRef<'_, Pay, SimRawRwLock> {
+impl<'g> Held for RwLockReadRef<'g, Pay, SimRawRwLock> {
     fn visit<'x>(&'x mut self, path: &[u8], _: &mut Vec<bool>) -> PayRef<'x> {
         at_leaf(path);
-        PayRef::Shared(&**self)
+        crate::shared_leaf_access!(self, RwLockReadRef<'g, Pay, SimRawRwLock>)
     }
 }
 impl Held for &mut Pay {
@@ -71,15 +76,24 @@ impl<G: Held> Held for LockGuard<G> {
     fn visit<'x>(&'x mut self, path: &[u8], layers: &mut Vec<bool>) -> PayRef<'x> {
         (**self).visit(path, layers)
     }
+    fn steal<'x>(&'x mut self) -> Option<Box<dyn Opaque + 'x>> {
+        (**self).steal()
+    }
 }
 impl<G: Held> Held for PoisonGuard<'_, G> {
     fn visit<'x>(&'x mut self, path: &[u8], layers: &mut Vec<bool>) -> PayRef<'x> {
         self.as_mut().visit(path, layers)
     }
+    fn steal<'x>(&'x mut self) -> Option<Box<dyn Opaque + 'x>> {
+        self.as_mut().steal()
+    }
 }
 impl<G: Held> Held for PoisonRef<'_, G> {
     fn visit<'x>(&'x mut self, path: &[u8], layers: &mut Vec<bool>) -> PayRef<'x> {
         (**self).visit(path, layers)
+    }
+    fn steal<'x>(&'x mut self) -> Option<Box<dyn Opaque + 'x>> {
+        (**self).steal()
     }
 }
 impl<X: Held> Held for Result<X, PoisonError<X>> {
@@ -95,13 +109,45 @@ impl<X: Held> Held for Result<X, PoisonError<X>> {
             }
         }
     }
-}
-impl<F: Fam> Held for ContAcc<NodeAcc<'_, F>> {
-    fn visit<'x>(&'x mut self, path: &[u8], layers: &mut Vec<bool>) -> PayRef<'x> {
-        ContAcc::<NodeAcc<'_, F>>::visit(self, path, layers)
+    fn steal<'x>(&'x mut self) -> Option<Box<dyn Opaque + 'x>> {
+        match self {
+            Ok(x) => x.steal(),
+            Err(e) => e.get_mut().steal(),
+        }
     }
 }
-impl<F: Fam> Held for ContAcc<LeafAcc<'_, F>> {
+
+// the library's guards / data values for a `Vec<&Leaf>` / `Box<[&Leaf]>` child
+macro_rules! slice_held {
+    ($t:ty, $steal:expr) => {
+        impl<'g> Held for $t {
+            fn visit<'x>(&'x mut self, path: &[u8], layers: &mut Vec<bool>) -> PayRef<'x> {
+                assert!(path.len() == 1, "happysim: slice targets are flat");
+                self[path[0] as usize].open(layers)
+            }
+            fn steal<'x>(&'x mut self) -> Option<Box<dyn Opaque + 'x>> {
+                #[allow(unused_imports)]
+                use crate::caps::CapNo as _;
+                if !$steal {
+                    return None;
+                }
+                let stolen = crate::caps::cap_of(&*self).steal(self)?;
+                Some(Box::new(stolen))
+            }
+        }
+    };
+}
+slice_held!(happylock::lockable::GuardSlice<LeafAcc<'g, WG>>, true);
+slice_held!(happylock::lockable::GuardSlice<LeafAcc<'g, RG>>, true);
+slice_held!(Box<[LeafAcc<'g, DM>]>, false);
+slice_held!(Box<[LeafAcc<'g, DR>]>, false);
+
+impl<'g, F: Fam> Held for FCont<'g, F, NodeAcc<'g, F>> {
+    fn visit<'x>(&'x mut self, path: &[u8], layers: &mut Vec<bool>) -> PayRef<'x> {
+        FCont::<'g, F, NodeAcc<'g, F>>::visit(self, path, layers)
+    }
+}
+impl<'g, F: Fam> Held for FCont<'g, F, LeafAcc<'g, F>> {
     fn visit<'x>(&'x mut self, path: &[u8], layers: &mut Vec<bool>) -> PayRef<'x> {
         self.visit_leaf(path, layers)
     }
@@ -116,6 +162,9 @@ impl Held for NoRead {
 }
 
 pub trait TargetApi {
+    /// can the closure of a scoped call return the data it was given? (the call's signature
+    /// ties the data to the borrow of the receiver rather than to the call)
+    const ESCAPABLE: bool = true;
     type G<'a>: Held
     where
         Self: 'a;
@@ -134,17 +183,42 @@ pub trait TargetApi {
     fn read<'a>(&'a self, key: ThreadKey) -> Self::Rg<'a>;
     fn try_read<'a>(&'a self, key: ThreadKey) -> Result<Self::Rg<'a>, ThreadKey>;
     fn unlock_read<'a>(g: Self::Rg<'a>) -> ThreadKey;
-    fn scoped_lock<'a, K: Keyable>(&'a self, key: K, f: &dyn Fn(Self::D<'a>));
-    fn scoped_try_lock<'a, K: Keyable>(&'a self, key: K, f: &dyn Fn(Self::D<'a>)) -> Result<(), K>;
-    fn scoped_read<'a, K: Keyable>(&'a self, key: K, f: &dyn Fn(Self::Rd<'a>));
-    fn scoped_try_read<'a, K: Keyable>(&'a self, key: K, f: &dyn Fn(Self::Rd<'a>)) -> Result<(), K>;
+    fn scoped_lock<'a, K: Keyable, Rt>(&'a self, key: K, f: &dyn Fn(Self::D<'a>) -> Rt) -> Rt;
+    fn scoped_try_lock<'a, K: Keyable, Rt>(&'a self, key: K, f: &dyn Fn(Self::D<'a>) -> Rt) -> Result<Rt, K>;
+    fn scoped_read<'a, K: Keyable, Rt>(&'a self, key: K, f: &dyn Fn(Self::Rd<'a>) -> Rt) -> Rt;
+    fn scoped_try_read<'a, K: Keyable, Rt>(&'a self, key: K, f: &dyn Fn(Self::Rd<'a>) -> Rt) -> Result<Rt, K>;
 }
 
 fn noread() -> ! {
     panic!("happysim: read API generated for a target that cannot be read-locked")
 }
 
+/// The scoped calls of `Mutex` / `RwLock` give their closure a reference that is only valid for
+/// the call (any lifetime), while this trait speaks of one tied to the receiver. The interpreter
+/// never lets such a value leave the closure (`ESCAPABLE = false`), which is what makes
+/// widening the lifetime for the duration of the closure sound.
+unsafe fn widen<'a, X: ?Sized, Y: Widen<'a, X>>(y: Y) -> Y::Out {
+    y.widen()
+}
+trait Widen<'a, X: ?Sized> {
+    type Out;
+    unsafe fn widen(self) -> Self::Out;
+}
+impl<'a, 'b, X: ?Sized + 'a> Widen<'a, X> for &'b mut X {
+    type Out = &'a mut X;
+    unsafe fn widen(self) -> &'a mut X {
+        &mut *(self as *mut X)
+    }
+}
+impl<'a, 'b, X: ?Sized + 'a> Widen<'a, X> for &'b X {
+    type Out = &'a X;
+    unsafe fn widen(self) -> &'a X {
+        &*(self as *const X)
+    }
+}
+
 impl TargetApi for M {
+    const ESCAPABLE: bool = false;
     type G<'a> = MutexGuard<'a, Pay, SimRawMutex>;
     type Rg<'a> = NoRead;
     type D<'a> = &'a mut Pay;
@@ -167,21 +241,22 @@ impl TargetApi for M {
     fn unlock_read<'a>(g: Self::Rg<'a>) -> ThreadKey {
         match g {}
     }
-    fn scoped_lock<'a, K: Keyable>(&'a self, key: K, f: &dyn Fn(Self::D<'a>)) {
-        M::scoped_lock(self, key, |d| f(d))
+    fn scoped_lock<'a, K: Keyable, Rt>(&'a self, key: K, f: &dyn Fn(Self::D<'a>) -> Rt) -> Rt {
+        M::scoped_lock(self, key, |d| f(unsafe { widen(d) }))
     }
-    fn scoped_try_lock<'a, K: Keyable>(&'a self, key: K, f: &dyn Fn(Self::D<'a>)) -> Result<(), K> {
-        M::scoped_try_lock(self, key, |d| f(d))
+    fn scoped_try_lock<'a, K: Keyable, Rt>(&'a self, key: K, f: &dyn Fn(Self::D<'a>) -> Rt) -> Result<Rt, K> {
+        M::scoped_try_lock(self, key, |d| f(unsafe { widen(d) }))
     }
-    fn scoped_read<'a, K: Keyable>(&'a self, _: K, _: &dyn Fn(Self::Rd<'a>)) {
+    fn scoped_read<'a, K: Keyable, Rt>(&'a self, _: K, _: &dyn Fn(Self::Rd<'a>) -> Rt) -> Rt {
         noread()
     }
-    fn scoped_try_read<'a, K: Keyable>(&'a self, _: K, _: &dyn Fn(Self::Rd<'a>)) -> Result<(), K> {
+    fn scoped_try_read<'a, K: Keyable, Rt>(&'a self, _: K, _: &dyn Fn(Self::Rd<'a>) -> Rt) -> Result<Rt, K> {
         noread()
     }
 }
 
 impl TargetApi for R {
+    const ESCAPABLE: bool = false;
     type G<'a> = RwLockWriteGuard<'a, Pay, SimRawRwLock>;
     type Rg<'a> = RwLockReadGuard<'a, Pay, SimRawRwLock>;
     type D<'a> = &'a mut Pay;
@@ -204,17 +279,17 @@ impl TargetApi for R {
     fn unlock_read<'a>(g: Self::Rg<'a>) -> ThreadKey {
         R::unlock_read(g)
     }
-    fn scoped_lock<'a, K: Keyable>(&'a self, key: K, f: &dyn Fn(Self::D<'a>)) {
-        R::scoped_write(self, key, |d| f(d))
+    fn scoped_lock<'a, K: Keyable, Rt>(&'a self, key: K, f: &dyn Fn(Self::D<'a>) -> Rt) -> Rt {
+        R::scoped_write(self, key, |d| f(unsafe { widen(d) }))
     }
-    fn scoped_try_lock<'a, K: Keyable>(&'a self, key: K, f: &dyn Fn(Self::D<'a>)) -> Result<(), K> {
-        R::scoped_try_write(self, key, |d| f(d))
+    fn scoped_try_lock<'a, K: Keyable, Rt>(&'a self, key: K, f: &dyn Fn(Self::D<'a>) -> Rt) -> Result<Rt, K> {
+        R::scoped_try_write(self, key, |d| f(unsafe { widen(d) }))
     }
-    fn scoped_read<'a, K: Keyable>(&'a self, key: K, f: &dyn Fn(Self::Rd<'a>)) {
-        R::scoped_read(self, key, |d| f(d))
+    fn scoped_read<'a, K: Keyable, Rt>(&'a self, key: K, f: &dyn Fn(Self::Rd<'a>) -> Rt) -> Rt {
+        R::scoped_read(self, key, |d| f(unsafe { widen(d) }))
     }
-    fn scoped_try_read<'a, K: Keyable>(&'a self, key: K, f: &dyn Fn(Self::Rd<'a>)) -> Result<(), K> {
-        R::scoped_try_read(self, key, |d| f(d))
+    fn scoped_try_read<'a, K: Keyable, Rt>(&'a self, key: K, f: &dyn Fn(Self::Rd<'a>) -> Rt) -> Result<Rt, K> {
+        R::scoped_try_read(self, key, |d| f(unsafe { widen(d) }))
     }
 }
 
@@ -246,10 +321,10 @@ macro_rules! poison_api_write {
         fn unlock<'a>(g: Self::G<'a>) -> ThreadKey {
             Poisonable::<$inner>::unlock(unres(g))
         }
-        fn scoped_lock<'a, K: Keyable>(&'a self, key: K, f: &dyn Fn(Self::D<'a>)) {
+        fn scoped_lock<'a, K: Keyable, Rt>(&'a self, key: K, f: &dyn Fn(Self::D<'a>) -> Rt) -> Rt {
             Poisonable::scoped_lock(self, key, |d| f(d))
         }
-        fn scoped_try_lock<'a, K: Keyable>(&'a self, key: K, f: &dyn Fn(Self::D<'a>)) -> Result<(), K> {
+        fn scoped_try_lock<'a, K: Keyable, Rt>(&'a self, key: K, f: &dyn Fn(Self::D<'a>) -> Rt) -> Result<Rt, K> {
             Poisonable::scoped_try_lock(self, key, |d| f(d))
         }
     };
@@ -268,10 +343,10 @@ macro_rules! poison_api_read {
         fn unlock_read<'a>(g: Self::Rg<'a>) -> ThreadKey {
             Poisonable::<$inner>::unlock_read(unres(g))
         }
-        fn scoped_read<'a, K: Keyable>(&'a self, key: K, f: &dyn Fn(Self::Rd<'a>)) {
+        fn scoped_read<'a, K: Keyable, Rt>(&'a self, key: K, f: &dyn Fn(Self::Rd<'a>) -> Rt) -> Rt {
             Poisonable::scoped_read(self, key, |d| f(d))
         }
-        fn scoped_try_read<'a, K: Keyable>(&'a self, key: K, f: &dyn Fn(Self::Rd<'a>)) -> Result<(), K> {
+        fn scoped_try_read<'a, K: Keyable, Rt>(&'a self, key: K, f: &dyn Fn(Self::Rd<'a>) -> Rt) -> Result<Rt, K> {
             Poisonable::scoped_try_read(self, key, |d| f(d))
         }
     };
@@ -290,10 +365,10 @@ macro_rules! poison_api_noread {
         fn unlock_read<'a>(g: Self::Rg<'a>) -> ThreadKey {
             match g {}
         }
-        fn scoped_read<'a, K: Keyable>(&'a self, _: K, _: &dyn Fn(Self::Rd<'a>)) {
+        fn scoped_read<'a, K: Keyable, Rt>(&'a self, _: K, _: &dyn Fn(Self::Rd<'a>) -> Rt) -> Rt {
             noread()
         }
-        fn scoped_try_read<'a, K: Keyable>(&'a self, _: K, _: &dyn Fn(Self::Rd<'a>)) -> Result<(), K> {
+        fn scoped_try_read<'a, K: Keyable, Rt>(&'a self, _: K, _: &dyn Fn(Self::Rd<'a>) -> Rt) -> Result<Rt, K> {
             noread()
         }
     };
@@ -349,16 +424,16 @@ macro_rules! coll_api {
             fn unlock_read<'a>(g: Self::Rg<'a>) -> ThreadKey {
                 <$ty>::unlock_read(g)
             }
-            fn scoped_lock<'a, K: Keyable>(&'a self, key: K, f: &dyn Fn(Self::D<'a>)) {
+            fn scoped_lock<'a, K: Keyable, Rt>(&'a self, key: K, f: &dyn Fn(Self::D<'a>) -> Rt) -> Rt {
                 <$ty>::scoped_lock(self, key, |d| f(d))
             }
-            fn scoped_try_lock<'a, K: Keyable>(&'a self, key: K, f: &dyn Fn(Self::D<'a>)) -> Result<(), K> {
+            fn scoped_try_lock<'a, K: Keyable, Rt>(&'a self, key: K, f: &dyn Fn(Self::D<'a>) -> Rt) -> Result<Rt, K> {
                 <$ty>::scoped_try_lock(self, key, |d| f(d))
             }
-            fn scoped_read<'a, K: Keyable>(&'a self, key: K, f: &dyn Fn(Self::Rd<'a>)) {
+            fn scoped_read<'a, K: Keyable, Rt>(&'a self, key: K, f: &dyn Fn(Self::Rd<'a>) -> Rt) -> Rt {
                 <$ty>::scoped_read(self, key, |d| f(d))
             }
-            fn scoped_try_read<'a, K: Keyable>(&'a self, key: K, f: &dyn Fn(Self::Rd<'a>)) -> Result<(), K> {
+            fn scoped_try_read<'a, K: Keyable, Rt>(&'a self, key: K, f: &dyn Fn(Self::Rd<'a>) -> Rt) -> Result<Rt, K> {
                 <$ty>::scoped_try_read(self, key, |d| f(d))
             }
         }
@@ -399,4 +474,17 @@ coll_api!(RefLockCollection<'static, MR>, MR);
 impl TargetApi for Poisonable<Unit> {
     poison_api_write!(Unit);
     poison_api_read!(Unit);
+}
+
+coll_api!(BoxedLockCollection<SV>, SV);
+coll_api!(BoxedLockCollection<SB>, SB);
+coll_api!(RetryingLockCollection<SV>, SV);
+coll_api!(RefLockCollection<'static, SB>, SB);
+impl TargetApi for Poisonable<BoxedLockCollection<SV>> {
+    poison_api_write!(BoxedLockCollection<SV>);
+    poison_api_read!(BoxedLockCollection<SV>);
+}
+impl TargetApi for Poisonable<RetryingLockCollection<SB>> {
+    poison_api_write!(RetryingLockCollection<SB>);
+    poison_api_read!(RetryingLockCollection<SB>);
 }
